@@ -97,8 +97,8 @@ Qed.
 Lemma on_frame_ok e f e' out sdus : ep_ok e -> on_frame e f = (e', out, sdus) ->
   ep_ok e' /\ Forall frame_wf out.
 Proof.
-  intros Hk H. destruct f as [tx req s l data | func poll final req]; cbn [on_frame] in H.
-  - destruct (update_ack e req true) as [e1 out1] eqn:Hu.
+  intros Hk H. destruct f as [tx req s l data ifin | func poll final req]; cbn [on_frame] in H.
+  - destruct (update_ack e req ifin) as [e1 out1] eqn:Hu.
     destruct (update_ack_ok _ _ _ _ _ Hk Hu) as [[] Ho].
     destruct (negb (tx =? e_req e1)).
     + injection H as <- <- <-. split; [constructor; auto|assumption].
@@ -209,7 +209,7 @@ Qed.
 (* ---------- draining ---------- *)
 (* a poll weighs 2: consuming it produces its answer *)
 Definition fweight (f : frame) : Z :=
-  match f with IFrame _ _ _ _ _ => 2 | SFrame _ true _ _ => 2 | SFrame _ false _ _ => 1 end.
+  match f with IFrame _ _ _ _ _ _ => 2 | SFrame _ true _ _ => 2 | SFrame _ false _ _ => 1 end.
 Fixpoint weight (fs : list frame) : Z :=
   match fs with [] => 0 | f :: r => fweight f + weight r end.
 
@@ -248,8 +248,8 @@ Lemma on_frame_measure e f e' out sdus :
   on_frame e f = (e', out, sdus) -> sframe_ok f ->
   3 * zlen (e_pend e') + weight out + 1 <= 3 * zlen (e_pend e) + fweight f.
 Proof.
-  destruct f as [tx req s l data | func poll final req]; cbn [on_frame sframe_ok fweight].
-  - intros H _. destruct (update_ack e req true) as [e1 out1] eqn:Hu.
+  destruct f as [tx req s l data ifin | func poll final req]; cbn [on_frame sframe_ok fweight].
+  - intros H _. destruct (update_ack e req ifin) as [e1 out1] eqn:Hu.
     apply update_ack_measure in Hu.
     destruct (negb (tx =? e_req e1)); [injection H as <- <- <-; lia|].
     match type of H with (if ?c then _ else _) = _ => destruct c end.
